@@ -571,11 +571,10 @@ fn skip_uvlc(reader: &mut BitReader) -> Option<()> {
     let mut leading_zeros = 0;
     while !reader.read_bit()? {
         leading_zeros += 1;
-        if leading_zeros > 32 {
-            return None;
-        }
     }
-    if leading_zeros > 0 {
+    // uvlc() (AV1 spec 4.10.3): with 32 or more leading zeros the value is 2^32 - 1
+    // and no value bits follow the terminating one bit.
+    if leading_zeros > 0 && leading_zeros < 32 {
         reader.skip_bits(leading_zeros)?;
     }
     Some(())
